@@ -168,6 +168,43 @@ theorem cross_err_bound {take : Nat} {ρ dD P : Int} (hP : 0 < P) (hρ : 2 * |ρ
     have h4 : 2 * P ≤ 2 ^ take * P := mul_le_mul_of_nonneg_right h3 (le_of_lt hP)
     linarith
 
+/-- the rounding of the first limb is exact when the rounded-away bits are zero -/
+theorem cross_rho_zero {take pinit : Nat} {K T ρ : Int} (hK : 2 ^ take * K = 2 ^ pinit * (T - ρ)) (hp : pinit = 0)
+    (hρ : 2 * |ρ| ≤ 2 ^ take) (hdvd : (2 : Int) ^ take ∣ T) : ρ = 0 := by
+  subst hp
+  simp only [pow_zero, one_mul] at hK
+  obtain ⟨t, ht⟩ := hdvd
+  have hρe : ρ = 2 ^ take * (t - K) := by rw [mul_sub, ← ht]; linarith
+  have hP := two_pow_pos take
+  rw [hρe, abs_mul, abs_of_pos hP] at hρ
+  have h1 : |t - K| < 1 := by
+    by_contra hc
+    have hc' : 1 ≤ |t - K| := not_lt.mp hc
+    have := mul_le_mul_of_nonneg_left hc' (le_of_lt hP)
+    linarith
+  have h2 : t - K = 0 := abs_eq_zero.mp (by have := abs_nonneg (t - K); omega)
+  rw [hρe, h2, mul_zero]
+
+/-- class (P), exact case with a partially used last limb whose dropped bits are zero -/
+theorem cross_P_arith_exact (V A T K Z : Int) (ab rb rs lsh L aStart take : Nat) (hLa : L ≤ aStart)
+    (hq : (aStart - L) * ab = rb * rs + take) (hva : A * 2 ^ lsh = T) (hK : 2 ^ take * K = T)
+    (hZ : K = V + 2 ^ (rb * rs) * Z) :
+    TorusEq V (rb * rs) (A * 2 ^ (L * ab + lsh)) (ab * aStart) := by
+  have e0 : (aStart - L) * ab = aStart * ab - L * ab := Nat.sub_mul _ _ _
+  have e00 : L * ab ≤ aStart * ab := Nat.mul_le_mul_right ab hLa
+  refine ⟨-Z, ?_⟩
+  have e1 : (2 : Int) ^ (ab * aStart) = 2 ^ take * 2 ^ (rb * rs) * 2 ^ (L * ab) := by
+    rw [← pow_add, ← pow_add]; congr 1
+    have : ab * aStart = aStart * ab := Nat.mul_comm _ _
+    omega
+  have e2 : (2 : Int) ^ (rb * rs + ab * aStart) = 2 ^ (rb * rs) * 2 ^ (ab * aStart) := by rw [pow_add]
+  have e3 : (2 : Int) ^ (L * ab + lsh) = 2 ^ (L * ab) * 2 ^ lsh := by rw [pow_add]
+  have hV : V = K - 2 ^ (rb * rs) * Z := by rw [hZ]; ring
+  rw [e2, e3, hV]
+  have hA : A * (2 ^ (L * ab) * 2 ^ lsh) = (A * 2 ^ lsh) * 2 ^ (L * ab) := by ring
+  rw [hA, hva, ← hK]
+  linear_combination K * e1
+
 /-- pure arithmetic of the class (P): `limbs_offset = L ≥ 0` -/
 theorem cross_P_arith (V A T K Z ρ dD : Int) (ab rb rs lsh L aStart d take pinit as_ : Nat)
     (has : as_ = aStart + d) (hLa : L ≤ aStart)
@@ -242,9 +279,10 @@ theorem crossCore_P (c : CrossCtx bits ab rb rs lsh H a) (L as' X Sa Sr take pad
           ((carryOnlyRun bits ab lsh (a.drop (L + Sa))).getD 0) = some out) :
     out.length = rs ∧ (∀ d ∈ out, |d| ≤ 2 ^ rb - 1) ∧
     TorusNear (valI rb out) (rb * rs) (valI ab a * 2 ^ (L * ab + lsh)) (ab * a.length) ∧
-    (ab * a.length ≤ rb * rs + L * ab →
+    (ab * a.length ≤ rb * rs + L * ab + lsh →
       TorusEq (valI rb out) (rb * rs) (valI ab a * 2 ^ (L * ab + lsh)) (ab * a.length)) := by
   have hab1 : 1 ≤ ab := by have := c.hlsh; omega
+  have hlsh := c.hlsh
   have hrb1 := c.hrb1
   have hcomm2 : rb * rs = rs * rb := Nat.mul_comm _ _
   have hXle1 : X ≤ as' * ab := by omega
@@ -272,20 +310,29 @@ theorem crossCore_P (c : CrossCtx bits ab rb rs lsh H a) (L as' X Sa Sr take pad
   have hsub2 : L + Sa - L = Sa := by omega
   have hP3 : rb * (rs - Sr) + pad + (L + Sa - L) * ab = rb * rs + take := by rw [hsub2]; omega
   have hP4 : a.length - (L + Sa) = 0 → L + Sa = a.length := by omega
-  have hexfacts : ab * a.length ≤ rb * rs + L * ab → a.length - (L + Sa) = 0 ∧ take = 0 := by
+  have hexfacts : ab * a.length ≤ rb * rs + L * ab + lsh →
+      a.length - (L + Sa) = 0 ∧ (take = 0 ∨ (rb * (rs - Sr) + pad = 0 ∧ take ≤ lsh)) := by
     intro hle
-    have hc : as' * ab ≤ rs * rb := by
-      have h1 : a.length * ab = L * ab + as' * ab := by rw [hlen, Nat.add_mul]
-      have h2 : ab * a.length = a.length * ab := Nat.mul_comm _ _
-      omega
-    have hXe : X = as' * ab := by omega
-    have ht0 : take = 0 := by rw [htake, hXe]; simp
-    have : Sa * ab = as' * ab := by omega
-    have hSae : Sa = as' := Nat.eq_of_mul_eq_mul_right (by omega) this
-    exact ⟨by omega, ht0⟩
+    have h1 : a.length * ab = L * ab + as' * ab := by rw [hlen, Nat.add_mul]
+    have h2 : ab * a.length = a.length * ab := Nat.mul_comm _ _
+    rcases Nat.le_total (as' * ab) (rs * rb) with hc | hc
+    · have hXe : X = as' * ab := by omega
+      have ht0 : take = 0 := by rw [htake, hXe]; simp
+      have : Sa * ab = as' * ab := by omega
+      have hSae : Sa = as' := Nat.eq_of_mul_eq_mul_right (by omega) this
+      exact ⟨by omega, Or.inl ht0⟩
+    · have hXe : X = rs * rb := by omega
+      have hlt : as' * ab - X < ab := by omega
+      have hte : take = as' * ab - X := by rw [htake]; exact Nat.mod_eq_of_lt hlt
+      have : Sa * ab = as' * ab := by omega
+      have hSae : Sa = as' := Nat.eq_of_mul_eq_mul_right (by omega) this
+      exact ⟨by omega, Or.inr ⟨by omega, by omega⟩⟩
+  have hcD0 : a.length - (L + Sa) = 0 → (carryOnlyRun bits ab lsh (a.drop (L + Sa))).getD 0 = 0 := by
+    intro h0
+    rw [List.drop_eq_nil_of_le (by omega)]; rfl
   have hq : crossQ (rb * (rs - Sr) + pad) ab take Sa = rb * rs := by unfold crossQ; omega
   obtain ⟨hcD, dD, hdD, hdD0, hva⟩ := cross_discard c (L + Sa) haSle
-  generalize (carryOnlyRun bits ab lsh (a.drop (L + Sa))).getD 0 = cD at h hcD hva
+  generalize (carryOnlyRun bits ab lsh (a.drop (L + Sa))).getD 0 = cD at h hcD hva hcD0
   obtain ⟨K, ρ, hK, hρ, hρ0, hfold⟩ := crossOuter_fold c (aStart := L + Sa) (take := take) (pad := pad)
     (resStart := Sr) (cD := cD) (by omega) haSle ha5 hr5 hboth hr1 hr2 hcD
   have hfin := cross_final_mod' (ab := ab) (lsh := lsh) (H := H) (a := a) hrb1 ha5 ha1 (by omega) hq
@@ -301,8 +348,24 @@ theorem crossCore_P (c : CrossCtx bits ab rb rs lsh H a) (L as' X Sa Sr take pad
     (L + Sa) (a.length - (L + Sa)) take (rb * (rs - Sr) + pad) a.length hP1 hP2
     hP3 hcase hva (fun h0 => hdD0 (hP4 h0)) hK hρ0 hEb hZ
   refine ⟨hlen', hlims, harith.1, fun hle => ?_⟩
-  obtain ⟨hd0', ht0⟩ := hexfacts hle
-  exact harith.2 hd0' ht0
+  obtain ⟨hd0', hc⟩ := hexfacts hle
+  rcases hc with ht0 | ⟨hp0, htl⟩
+  · exact harith.2 hd0' ht0
+  · have hcz := hcD0 hd0'
+    subst hcz
+    have hdvd : (2 : Int) ^ take ∣ crossTop ab lsh a (L + Sa) 0 := by
+      unfold crossTop; rw [zero_add]
+      exact Dvd.dvd.mul_right (pow_dvd_pow 2 htl) _
+    have hρz := cross_rho_zero hK hp0 hρ hdvd
+    have hLS : L + Sa = a.length := by omega
+    rw [hd0', hdD0 hLS] at hva
+    simp only [Nat.mul_zero, pow_zero, mul_one, add_zero] at hva
+    rw [hρz, hp0] at hK
+    simp only [pow_zero, one_mul, sub_zero] at hK
+    have := cross_P_arith_exact (valI rb stf.res) (valI ab a) (crossTop ab lsh a (L + Sa) 0) K Z ab rb rs lsh L
+      (L + Sa) take hP2 (by rw [hp0] at hP3; omega) hva hK hZ
+    rw [hLS] at this
+    exact this
 
 /-- **class (P): `limbs_offset = L ≥ 0`** (offset `L·ab + lsh ≥ 0`) -/
 theorem normalizeCrossCoef_value_P (c : CrossCtx bits ab rb rs lsh H a) (off : Int) (L : Nat)
@@ -310,9 +373,10 @@ theorem normalizeCrossCoef_value_P (c : CrossCtx bits ab rb rs lsh H a) (off : I
     (h : normalizeCrossCoef bits rb rs off ab a = some out) :
     out.length = rs ∧ (∀ d ∈ out, |d| ≤ 2 ^ rb - 1) ∧
     TorusNear (valI rb out) (rb * rs) (valI ab a * 2 ^ (L * ab + lsh)) (ab * a.length) ∧
-    (ab * a.length ≤ rb * rs + L * ab →
+    (ab * a.length ≤ rb * rs + L * ab + lsh →
       TorusEq (valI rb out) (rb * rs) (valI ab a * 2 ^ (L * ab + lsh)) (ab * a.length)) := by
   have hab1 : 1 ≤ ab := by have := c.hlsh; omega
+  have hlsh := c.hlsh
   have hrb1 := c.hrb1
   have hRb := two_pow_pos rb
   rw [normalizeCrossCoef_core, hso] at h
